@@ -157,6 +157,12 @@ class AMF:
             need(ue.supi in s.cfg['subscribers'],f'unknown subscriber {ue.supi}')
             need(0x2e in opt,'UE security capability'); ue.seccap=bytes(opt[0x2e])
             need(ue.seccap[0]&0x80 and ue.seccap[1]&0x20,'UE must support EA0 and IA2 here')
+            # algorithm selection (TS 33.501 6.7.1): the first algorithm of the operator's priority list that the UE advertises.
+            # This AMF can only run 128-NIA2 / 5G-EA0 itself; an operator list that leads to another algorithm because the UE
+            # advertises it ends the conversation there (the UE would be told to use what it advertised)
+            pri_i=s.cfg.get('int_priority',[2,1,0]); pri_e=s.cfg.get('enc_priority',[0,1,2])
+            ia=next((a for a in pri_i if ue.seccap[1]&(0x80>>a)),None); ea=next((a for a in pri_e if ue.seccap[0]&(0x80>>a)),None)
+            need(ia==2 and ea==0,f'the UE advertises capability {ue.seccap[:2].hex()}: an AMF with integrity priority {pri_i} / ciphering priority {pri_e} selects NIA{ia}/NEA{ea}, which the UE does not apply (it protects with NIA2/NEA0)')
             # authentication vector
             ue.rand=bytes(s.R.randrange(256) for _ in range(16)); sqn=bytes(s.R.randrange(256) for _ in range(6)); amf=bytes([0x80|s.R.randrange(128),s.R.randrange(256)])
             k=bytes.fromhex(s.cfg['k']); opc=bytes.fromhex(s.cfg['opc'])
